@@ -46,7 +46,7 @@ for name, chk, ex, t, sigs in rows:
     res = {1: "**caught**", 0: "not detected", -1: "n/a"}[ex]
     out.append(f"| {name} | {suite.get(name, '?')[:40]} | {chk} | {res} | {t} | {'; '.join(sigs)[:140]} |")
 out += ["", "## 3. Changes written by independent sub-agents (`seeded/<id>/`)", "",
-        "Three rounds (ids `-agent-k`, `-agent-r2-k`, `-agent-r3-k`). 'first run' is the result of the check of the change's own property as it stood when the change was first verified; 'now' is the re-verification of all kept changes against the final checks and the final `/repo` HEAD. Retired changes: `seeded-retired/README.md`.", "",
+        "Four rounds (ids `-agent-k`, `-agent-r2-k`, `-agent-r3-k`, `-agent-r4-k`). 'first run' is the result of the check of the change's own property as it stood when the change was first verified; 'now' is the re-verification of all kept changes against the final checks and the final `/repo` HEAD. Retired changes: `seeded-retired/README.md`.", "",
         "| id | what (agent's summary) | needs | suite | demo without / with patch | first run | now |", "|---|---|---|---|---|---|---|"]
 n_total = n_now = n_first_missed = 0
 for f in sorted(glob.glob(f'{V}/seeded/*/meta.json')):
